@@ -16,10 +16,49 @@ namespace {
 struct Job { const Json * plan; std::vector<std::vector<size_t>> by_thread; std::vector<Json> outs; int last_started = -1; };
 
 std::string one_conv(const Json & op, const std::string & doc) {
-	std::string fam = op.gets("family", "s"), call = op.gets("call", "convert");
+	std::string fam = op.gets("family", "s"), call = op.gets("call", "convert"), kind = op.gets("k", "CONV");
 	unsigned long ext = (unsigned long)op.geti("ext");
 	short fmt = (short)op.geti("fmt"), lang = (short)op.geti("lang");
 	std::string out;
+	if (kind == "META") {
+		// the other text-accepting entry points an embedder calls from its threads: metadata queries and an update
+		std::string c = doc; size_t end = 0;
+		bool h = mmd_string_has_metadata(&c[0], &end);
+		out = h ? "has:" + std::to_string(end) : "none";
+		c = doc; char * k = mmd_string_metadata_keys(&c[0]); if (k) { out += "|keys:"; out += k; free(k); }
+		c = doc; char * v = mmd_string_metavalue_for_key(&c[0], "title"); if (v) { out += "|title:"; out += v; free(v); }
+		char * u = mmd_string_update_metavalue_for_key(doc.c_str(), op.geti("lang") % 2 ? "title" : "New Key", "updated *value*"); if (u) { out += "|upd:"; out += u; free(u); }
+		mmd_engine * e = mmd_engine_create_with_string(doc.c_str(), ext);
+		char * k2 = mmd_engine_metadata_keys(e); if (k2) { out += "|ekeys:"; out += k2; free(k2); }
+		char * r = mmd_engine_convert(e, fmt); if (r) { out += "|conv:"; out += r; free(r); }
+		mmd_engine_free(e, true);
+		return out;
+	}
+	if (kind == "CRITIC") {
+		DString * d = d_string_new(doc.c_str());
+		if (op.geti("lang") % 2) mmd_critic_markup_accept(d); else mmd_critic_markup_reject(d);
+		out.assign(d->str, d->currentStringLength);
+		char * r = mmd_d_string_convert(d, ext, fmt, lang); if (r) { out += "|conv:"; out += r; free(r); }
+		d_string_free(d, true);
+		return out;
+	}
+	if (kind == "TRANSCLUDE") {
+		// no simulated files in this variant: every target is missing, the path handling, the guard stack and the manifest still run
+		DString * d = d_string_new(("Title: t\ntransclude base: sub\n\n" + doc + "\n{{a.txt}} {{b.*}} {{/nonexistent-mmdsim/c.txt}} {{TOC}}\n").c_str());
+		struct stack * m = mmd_d_string_transclusion_manifest(d, "/nonexistent-mmdsim", "/nonexistent-mmdsim/top.txt");
+		if (m) { for (size_t i = 0; i < m->size; i++) { char * x = (char *)stack_peek_index(m, i); out += x ? x : "?"; out += ";"; free(x); } stack_free(m); }
+		mmd_transclude_source(d, "/nonexistent-mmdsim", "/nonexistent-mmdsim/top.txt", fmt, NULL, NULL);
+		out.append(d->str, d->currentStringLength);
+		d_string_free(d, true);
+		return out;
+	}
+	if (kind == "IMPORT") {
+		// OPML / iThoughts import: the reader, its lexer and parser are part of the library too
+		DString * r = (ext & X_PARSE_ITMZ) ? mmd_string_convert_itmz_to_text(doc.c_str()) : mmd_string_convert_opml_to_text(doc.c_str());
+		if (r) { out.assign(r->str, r->currentStringLength); d_string_free(r, true); }
+		char * c2 = mmd_string_convert(doc.c_str(), ext, fmt, lang); if (c2) { out += "|conv:"; out += c2; free(c2); }
+		return out;
+	}
 	if (fam == "e") {
 		// a per-thread engine, reused for two conversions
 		mmd_engine * e = mmd_engine_create_with_string(doc.c_str(), ext);
@@ -95,9 +134,16 @@ struct ThrEngine : Engine {
 			if (d.size() > 8192) d = gen_doc(w, dopt);
 			docs.push(d);
 		}
+		int import_doc = -1;
+		unsigned long import_ext = X_PARSE_OPML;
+		if (!opml_corpus().empty() && w.chance(1, 5)) {
+			import_doc = (int)w.below((uint64_t)ndocs);
+			if (!itmz_corpus().empty() && w.chance(1, 3)) { docs[(size_t)import_doc] = itmz_corpus()[w.below(itmz_corpus().size())]; import_ext = X_PARSE_ITMZ; }
+			else docs[(size_t)import_doc] = opml_corpus()[w.below(opml_corpus().size())];
+		}
 		p["docs"] = docs;
 		Json ops = Json::array();
-		bool use_pkg = w.chance(1, 3), allow_random = w.chance(1, 4);
+		bool use_pkg = w.chance(1, 3), allow_random = w.chance(1, 4), use_other = w.chance(1, 2);
 		for (int t = 0; t < nthreads; t++) {
 			int n = (int)w.range(1, tier == "thorough" ? 4 : 3);
 			for (int i = 0; i < n; i++) {
@@ -112,6 +158,25 @@ struct ThrEngine : Engine {
 				if (use_pkg && o.gets("family") != "e" && w.chance(1, 2)) { static const int pf[] = {FMT_EPUB, FMT_ODT, FMT_TEXTBUNDLE_COMPRESSED}; o["fmt"] = pf[w.below(3)]; o["call"] = "to_data"; }
 				o["ext"] = (int64_t)gen_ext(w, allow_random);
 				o["lang"] = (int64_t)w.below(7);
+				if (use_other) {
+					unsigned ok = (unsigned)w.below(12);
+					if (ok == 0) o["k"] = "META";
+					else if (ok == 1) o["k"] = "CRITIC";
+					else if (ok == 2) o["k"] = "TRANSCLUDE";
+					else if (ok == 3 && import_doc >= 0) { o["k"] = "IMPORT"; o["doc"] = import_doc; }
+					if (o.gets("k") != "CONV") { static const int tf[] = {FMT_HTML, FMT_LATEX, FMT_FODT, FMT_OPML, FMT_MMD}; o["fmt"] = tf[w.below(5)]; o["family"] = "s"; o["call"] = "convert"; }
+				}
+				if ((int)o.geti("doc") == import_doc) {
+					// an OPML / iThoughts source: every use of it is an import (c-string family, so the caller's text is not replaced under a later op)
+					o["ext"] = (int64_t)(((unsigned long)o.geti("ext") & ~(X_PARSE_OPML | X_PARSE_ITMZ)) | import_ext);
+					if (o.gets("k") == "CONV") {
+						o["family"] = "s";
+						// to_data + FORMAT_MMD on an import source is the input-level use-after-free of DESIGN section 6 (C01, not claimed):
+						// it would only turn the whole run into an out-of-scope one
+						if (o.gets("call") == "to_data" && o.geti("fmt") == FMT_MMD) o["call"] = "convert";
+					}
+					else if (o.gets("k") != "IMPORT") o["k"] = "IMPORT";
+				}
 				ops.push(o);
 			}
 		}
@@ -293,7 +358,7 @@ struct ThrEngine : Engine {
 		Json s = Json::object();
 		s["nthreads"] = plan.at("nthreads"); s["schedule_seed"] = plan.at("schedule_seed"); s["switch_den"] = plan.at("switch_den");
 		Json ops = Json::array();
-		for (auto & o : plan.at("ops").a) ops.push("T" + std::to_string(o.geti("t")) + ":" + o.gets("family") + "/" + o.gets("call") + " doc" + std::to_string(o.geti("doc")) + " fmt=" + std::to_string(o.geti("fmt")) + " ext=" + std::to_string(o.geti("ext")));
+		for (auto & o : plan.at("ops").a) ops.push("T" + std::to_string(o.geti("t")) + ":" + o.gets("k") + ":" + o.gets("family") + "/" + o.gets("call") + " doc" + std::to_string(o.geti("doc")) + " fmt=" + std::to_string(o.geti("fmt")) + " ext=" + std::to_string(o.geti("ext")));
 		s["ops"] = ops;
 		Json dl = Json::array(); for (auto & d : plan.at("docs").a) dl.push((int64_t)d.s.size()); s["doc_bytes"] = dl;
 		return s;
